@@ -71,7 +71,15 @@ let advance (lineno : int) (s : M.hcstate ref) (i : int) (target : string) (flog
      | M.G0 -> step 0; result := "P40"
      | M.G1 -> step 0; result := "D=" ^ show_opt (M.hres (nth_th !s i))
      | M.HDone -> result := "D"
-     | M.GDone -> result := "D=" ^ show_opt (M.hres t))
+     | M.GDone -> result := "D=" ^ show_opt (M.hres t)
+     | M.I0 -> step 0; result := "P41"
+     | M.I1 ->
+       let b = int_of_nat (M.hbi t) in
+       if b >= int_of_nat (M.len_of !s (M.hsnap t)) then (step 0; result := "D")
+       else if target = Printf.sprintf "P42:%d" b then result := target
+       else if M.lk !s (M.hsnap t) (M.hbi t) then result := "B"
+       else (step 0; count "buckets_iterated")
+     | M.IDone -> result := "D")
   done;
   if !result = "" then "?" else !result
 
@@ -85,6 +93,8 @@ let run (path : string) : unit =
   let dead = ref true in
   let universe = ref [] in
   let final : (string * string) list ref = ref [] in
+  let ylog : (int * (string * string)) list ref = ref [] in
+  let ychecked : (int, unit) Hashtbl.t = Hashtbl.create 8 in
   (* read the whole trace: the model is given every thread of a case up front *)
   let lines = ref [] in
   iter_lines path (fun n w -> lines := (n, w) :: !lines);
@@ -102,9 +112,10 @@ let run (path : string) : unit =
     let j = ref (idx + 1) in
     while !j < total && (match snd arr.(!j) with "CASE" :: _ -> false | _ -> true) do
       (match snd arr.(!j) with
-       | ["PRE"; k; v] -> pre := (mz_of_string k, Some (fun _ -> Some (mz_of_string v))) :: !pre
-       | ["N"; "W"; k; op; v] -> ths := (mz_of_string k, Some (fn_of (int_of_string op) (int_of_string v))) :: !ths
-       | ["N"; "G"; k] -> ths := (mz_of_string k, None) :: !ths
+       | ["PRE"; k; v] -> pre := M.HCompute (mz_of_string k, (fun _ -> Some (mz_of_string v))) :: !pre
+       | ["N"; "W"; k; op; v] -> ths := M.HCompute (mz_of_string k, fn_of (int_of_string op) (int_of_string v)) :: !ths
+       | ["N"; "G"; k] -> ths := M.HGet (mz_of_string k) :: !ths
+       | ["N"; "I"] -> ths := M.HRange :: !ths
        | _ -> ());
       incr j
     done;
@@ -114,7 +125,7 @@ let run (path : string) : unit =
     (* the preloaded content: each preload writer runs alone to completion *)
     List.iteri (fun i _ -> for _ = 1 to 7 do s := M.hstep hx !s (nat_of_int i) M.O done) pre;
     labels := Array.make (List.length ths) "";
-    started := 0; released := None; flog := []; dead := false; final := [];
+    started := 0; released := None; flog := []; dead := false; final := []; ylog := []; Hashtbl.reset ychecked;
     count "cases" in
   Array.iteri (fun idx (lineno, w) ->
       match w with
@@ -138,6 +149,7 @@ let run (path : string) : unit =
       | "N" :: _ -> released := Some !started; incr started
       | ["S"; i] -> released := Some (int_of_string i)
       | ["F"; i; found; old] -> flog := (int_of_string i, (found = "1", old)) :: !flog
+      | ["Y"; i; k; v] -> ylog := (int_of_string i, (k, v)) :: !ylog
       | "O" :: len :: rz :: obs ->
         let obs = Array.of_list obs in
         let n = Array.length obs in
@@ -175,6 +187,24 @@ let run (path : string) : unit =
             mismatch "tbl" lineno "thread %d: implementation at %s, model at %s" j obs.(j) !labels.(j)
           end
         done;
+        (* a Range that has returned: what it yielded, key by key, is what the model's iteration yielded *)
+        List.iteri (fun gi t ->
+            let j = gi - !off in
+            if j >= 0 && j < n && not (Hashtbl.mem ychecked j) then
+              match M.hpc_ t with
+              | M.IDone when obs.(j) = "D" ->
+                Hashtbl.replace ychecked j ();
+                let mine = List.filter_map (fun (i, kv) -> if i = j then Some kv else None) !ylog in
+                List.iter (fun k ->
+                    let mv = M.hyield t (mz_of_string k) and iv = List.assoc_opt k mine in
+                    if not (match mv, iv with Some a, Some b -> string_of_mz a = b | None, None -> true | _ -> false) then begin
+                      bad := true;
+                      mismatch "tbl" lineno "Range thread %d, key %s: implementation yielded %s, model %s" j k
+                        (match iv with Some b -> b | None -> "-") (show_opt mv)
+                    end) !universe;
+                List.iter (fun (k, _) -> if not (List.mem k !universe) then mismatch "tbl" lineno "Range thread %d yielded key %s, which no step of the case bound" j k) mine;
+                count "iterations_compared"
+              | _ -> ()) (M.hths !s);
         let mlen = int_of_nat (M.len_of !s (M.hcur !s)) in
         if string_of_int mlen <> len then (bad := true; mismatch "tbl" lineno "table length: implementation %s, model %d" len mlen);
         if (if M.resizing !s then "1" else "0") <> rz then (bad := true; mismatch "tbl" lineno "resizing flag: implementation %s, model %b" rz (M.resizing !s));
